@@ -65,9 +65,10 @@ Proof.
   destruct o; auto; congruence.
 Qed.
 
-(** Termination: for every composition whose links carry pass-through adapters, non-negative fixed delays and
-    buffering adapters and whose pull-based components form no cycle among themselves ([term_ok], with a rank
-    function as witness), and for every end time, there is an explicit amount of fuel [F] beyond which the run
+(** Termination: for every valid composition whose links carry pass-through adapters, buffering adapters,
+    DelayToPush and delay adapters with non-negative delays (DelayFixed, DelayToPull with its remembered pull
+    times) and whose pull-based components form no cycle among themselves ([term_ok], with a rank function as
+    witness), and for every end time, there is an explicit amount of fuel [F] beyond which the run
     never stops for lack of fuel — neither in the recursion of the driver, nor inside a pull, nor in the loop:
     it returns after finitely many updates (all times stay below an explicit bound, each update consumes at
     least one microsecond of the remaining distance). *)
@@ -109,7 +110,7 @@ Example C03_nonvacuous :
 Proof. split; [apply wf_b_sound; vm_compute; reflexivity|]. vm_compute. auto. Qed.
 
 Definition ex3t : composition :=
-  [ mkC (KTime 0 [3; 2] true) 0 [ mkIn (1, 0)%nat [ABuf; AFixed 4]; mkIn (2, 0)%nat [APass] ];
+  [ mkC (KTime 0 [3; 2] true) 0 [ mkIn (1, 0)%nat [ABuf; AFixed 4]; mkIn (2, 0)%nat [APass]; mkIn (1, 0)%nat [AToPull 2 0] ];
     mkC (KTime 1 [2] false) 1 [];
     mkC KPull 1 [ mkIn (1, 0)%nat [AFixed 1] ] ].
 
